@@ -9,7 +9,9 @@ for id in $IDS; do
   git -C /repo worktree add -q --detach $WT HEAD || exit 2
   if grep -q neutralised_by_fix /verif/seeded/$id/meta.json; then echo "$id: neutralised by a later fix (skipped)"; continue; fi
   if ! git -C $WT apply --3way /verif/seeded/$id/patch.diff 2>/tmp/seed_regress.err; then echo "$id: patch does not apply ($(head -1 /tmp/seed_regress.err))"; continue; fi
-  for c in $(python3 -c "import json;print(' '.join(json.load(open('/verif/seeded/$id/meta.json'))['checks']))"); do
+  CHECKS=$(python3 -c "import json;print(' '.join(json.load(open('/verif/seeded/$id/meta.json'))['checks']))")
+  [ -n "$ONLY_FIRST" ] && CHECKS=$(echo $CHECKS | cut -d' ' -f1)
+  for c in $CHECKS; do
     out=$(tools/seed_run_wt.sh $WT $c 2>&1 | head -2 | cut -c1-200)
     case "$out" in *"rc=1"*) echo "$id $c DETECTED :: $(echo "$out" | tail -1)";; *) echo "$id $c NOT-DETECTED :: $out";; esac
   done
